@@ -82,11 +82,17 @@ def one_shape(col, n, edges, rng, variants, sample=False):
     prios = [10 ** i for i in range(n)]
     if rng.random() < 0.5:
         rng.shuffle(prios)
-    if rng.random() < 0.4:
+    huge = rng.random() < 0.15
+    if huge:
+        # priorities beyond 2**53 that differ by little: integers are compared exactly however large they are (sums over distinct
+        # descendant sets still differ: k * 2**53 + a sum of distinct powers of ten)
+        prios = [2 ** 53 + p for p in prios]
+        col.counters["cp_shapes_with_priorities_beyond_2_to_the_53"] += 1
+    elif rng.random() < 0.4:
         # signed powers of ten: sums over distinct descendant sets stay pairwise different (coefficients in {-1, 0, 1})
         prios = [p if rng.random() < 0.5 else -p for p in prios]
         col.counters["cp_shapes_with_negative_priorities"] += 1
-    if n >= 2 and rng.random() < 0.12:
+    if n >= 2 and not huge and rng.random() < 0.12:
         # boundary vectors: priorities that add up to exactly 0, or that are all <= 0 (no positive priority anywhere)
         if rng.random() < 0.5:
             prios[-1] = -sum(prios[:-1])
